@@ -68,8 +68,14 @@ def run_case(rng, packed, compute_labels, cfg, nf, batches, Q):
         if [int(r[0]) for r in rd[1:]] != direct_labels(est):
             problems.append("dump_assignments csv disagrees with the clusters")
     # direct: transform = Jaccard distance to the centroid of the cluster of that rank
-    cents = [np.unpackbits(c, count=nf).astype(bool) for c in est.get_centroids(sort=True)] \
-        if hasattr(est, "get_centroids") else []
+    # (the centroids are recomputed from the members the LABELS name: majority vote with ties set over the
+    # rows labelled k — nothing is taken from the estimator's own centroid list or its order)
+    allrows = np.array([r for b in batches for r in b], dtype=np.uint8).reshape(-1, nf)
+    final_labels = direct_labels(est)
+    cents = []
+    for k in range(1, (max(final_labels) if final_labels and len(final_labels) == len(allrows) else 0) + 1):
+        mem = allrows[[i for i, l in enumerate(final_labels) if l == k]]
+        cents.append((2 * mem.sum(axis=0, dtype=np.int64) >= len(mem)) if len(mem) > 1 else mem[0].astype(bool))
     for qi, row in enumerate(tr):
         q = np.array(Q[qi], dtype=bool)
         for k, c in enumerate(cents[:len(row)]):
